@@ -436,6 +436,36 @@ def canon(fn: ast.FunctionDef, expr: ast.AST | None, keep: Iterable[str] = ()) -
     return unparse(inline(expr, env))
 
 
+def canon_at(fn: ast.FunctionDef, g, at: int, expr: ast.AST, depth: int = 6) -> str:
+    """like canon(), but a local bound more than once is read through the one binding that reaches the CFG node `at` (when exactly one does):
+    `d = v.get(); if c: t = f(d); d = t - 1` reads `f(d)` as `f(v.get())`"""
+    env = last_assignments(fn)
+    e = copy.deepcopy(expr)
+    for _ in range(depth):
+        e = inline(e, env)
+        multi = [n for n in ast.walk(e) if isinstance(n, ast.Name) and isinstance(n.ctx, ast.Load) and n.id not in env]
+        changed = False
+        for n in multi:
+            defs = [(nid, nd.ast) for nid, nd in g.nodes.items() if nd.kind == "stmt" and isinstance(nd.ast, ast.Assign) and len(nd.ast.targets) == 1
+                    and isinstance(nd.ast.targets[0], ast.Name) and nd.ast.targets[0].id == n.id]
+            all_defs = [nid for nid, nd in g.nodes.items() if nd.ast is not None and any(isinstance(x, ast.Name) and x.id == n.id and isinstance(x.ctx, ast.Store) for x in ast.walk(nd.ast) if nd.kind == "stmt")]
+            if not defs:
+                continue
+            reaching = [(nid, a) for nid, a in defs if at in g.reachable([m for m, _l in g.succ[nid]], blocked=[x for x in all_defs if x != nid])]
+            others = [x for x in all_defs if x not in {nid for nid, _a in defs} and at in g.reachable([m for m, _l in g.succ[x]], blocked=[y for y in all_defs if y != x])]
+            if len(reaching) == 1 and not others:
+                class _S(ast.NodeTransformer):
+                    def visit_Name(self, m: ast.Name) -> ast.AST:
+                        return copy.deepcopy(reaching[0][1].value) if m is n else m  # noqa: B023
+
+                e = _S().visit(e)
+                changed = True
+                break
+        if not changed:
+            break
+    return unparse(e)
+
+
 def canonical_statements(fn: ast.FunctionDef, keep: Iterable[str] = ()) -> list[str]:
     """the function's top-level statements as text, with single-assignment locals substituted into their users and their own binding
     statements (and the docstring) left out: `v = x.a; self.t[k] = v; self.f(k, v)` reads `self.t[k] = x.a`, `self.f(k, x.a)`"""
